@@ -198,6 +198,17 @@ static ssize_t rd_cb(void *c, char *buf, size_t size) {
     st.pos += n;
     return (ssize_t)n;
 }
+// a regular file can be repositioned (rewind after a pre-scan, ftell/fseek to learn the size); a FIFO cannot
+static int sk_cb(void *c, off64_t *off, int whence) {
+    Cookie *ck = (Cookie *)c; FileState &st = S->fs[ck->idx]; const SFile &f = *st.f;
+    if (f.fkind) { errno = ESPIPE; return -1; }
+    long long base = whence == SEEK_SET ? 0 : whence == SEEK_CUR ? (long long)st.pos : (long long)f.data.size();
+    long long np = base + (long long)*off;
+    if (np < 0) { errno = EINVAL; return -1; }
+    if (np > (long long)f.data.size()) np = (long long)f.data.size();
+    st.pos = (size_t)np; st.eof_reported = false; *off = (off64_t)np;
+    return 0;
+}
 static int cl_cb(void *c) {
     Cookie *ck = (Cookie *)c; S->in_harness++;
     FileState &st = S->fs[ck->idx]; st.closed = true; if (st.fd >= 0) S->fdmap.erase(st.fd);
@@ -224,7 +235,7 @@ static int sim_open_idx(int idx) {
 }
 static FILE *sim_stream_for(int idx) {
     FileState &st = S->fs[idx];
-    cookie_io_functions_t io = { rd_cb, nullptr, nullptr, cl_cb };
+    cookie_io_functions_t io = { rd_cb, nullptr, sk_cb, cl_cb };
     S->in_harness--;                // FILE + stream buffer belong to the tool's run (freed by fclose)
     FILE *r = fopencookie(new Cookie{ idx }, "r", io);
     S->in_harness++;
@@ -273,6 +284,11 @@ extern "C" int __wrap_close(int fd) {
         return 0;
     }
     return __real_close(fd);
+}
+extern "C" off_t __real_lseek(int fd, off_t off, int whence);
+extern "C" off_t __wrap_lseek(int fd, off_t off, int whence) {
+    if (S && !S->in_harness && S->fdmap.count(fd)) { Cookie ck{ S->fdmap[fd] }; off64_t o = off; if (sk_cb(&ck, &o, whence) != 0) return (off_t)-1; return (off_t)o; }
+    return __real_lseek(fd, off, whence);
 }
 extern "C" int __real_posix_fadvise(int fd, off_t off, off_t len, int adv);
 extern "C" int __wrap_posix_fadvise(int fd, off_t off, off_t len, int adv) {
